@@ -24,6 +24,8 @@ static Plan gen_corrupt(const std::string &prop, const std::string &tier, uint64
 	p.seti("bsize", 1024); p.set("bsize_set", "1");
 	if (prop == "C12") {
 		p.set("producer", "real");
+		// a third of the tables come from a pooled writer ('a file produced by the writer' - any writer configuration)
+		if (r.chance(1, 3)) { p.seti("pool", r.below(4)); p.set("sched", sched_cfg_gen(r, 600)); }
 		bool sweep = thorough && r.chance(1, 40);
 		gen_sorted_adds(p, r, sweep ? 3 + r.below(20) : r.chance(1, 25) ? r.below(2) : 2 + r.below(r.chance(1, 3) ? 150 : 40), r.chance(1, 2) ? 100 : 300);
 		if (sweep) { p.op("sweepbits"); return p; }
@@ -229,6 +231,7 @@ static RunResult exec_corrupt(const Plan &p)
 	bool ref = p.gets("producer", "real") == "ref";
 	if (!ref) {
 		if (!tablelib_write(p, res, path, b.model, adds, false, &b.pre)) return res;
+		if (p.geti("pool", -1) >= 0) res.probes["table-from-pooled-writer"]++;
 		b.file = read_file(path);
 	} else {
 		mfmt::Entries ents;
